@@ -1,3 +1,18 @@
+//@ fn RsyncUri::unique_components
+//@ spec
+    ensures
+        // C30: the directory component is the canonical authority ...
+        res.0.view() == self.canonical_authority_spec(),
+        // C30: ... and the digest is taken over an injective encoding of the URI: exactly six pieces in this
+        // order -- an 8-byte scheme literal, the canonical authority, a 1-byte separator literal, the module
+        // name, a 1-byte separator literal, the path (authority and module contain no '/')
+        digest_pieces_rsync(res.1.pieces_spec(), self),
+//@ fn Https::unique_components
+//@ spec
+    ensures
+        res.0.view() == self.canonical_authority_spec(),
+        // C30: four pieces -- an 8-byte scheme literal, the canonical authority, a 1-byte separator literal, the path
+        digest_pieces_https(res.1.pieces_spec(), self),
 //@ fn WorkingDir::uri_path
 //@ spec
     ensures
@@ -42,3 +57,20 @@ proof fn lemma_archive_name_safe(data: Seq<u8>)
     assert(n[0] == h[0]);
 }
 spec fn uri_authority(u: &Https) -> Seq<char> { u.canonical_authority_spec() }
+
+spec fn digest_pieces_rsync(p: Seq<Seq<u8>>, uri: &RsyncUri) -> bool {
+    &&& p.len() == 6
+    &&& p[0].len() == 8
+    &&& p[1] == uri.canonical_authority_bytes()
+    &&& p[2].len() == 1
+    &&& p[3] == uri.module_spec_bytes()
+    &&& p[4].len() == 1
+    &&& p[5] == uri.path_spec_bytes()
+}
+spec fn digest_pieces_https(p: Seq<Seq<u8>>, uri: &Https) -> bool {
+    &&& p.len() == 4
+    &&& p[0].len() == 8
+    &&& p[1] == uri.canonical_authority_bytes()
+    &&& p[2].len() == 1
+    &&& p[3] == uri.path_spec_bytes()
+}
